@@ -26,7 +26,15 @@ def gen_case(rng, cid, max_len=3, max_depth=2, allow=None, short_prob=0.0,
         ns = int(rng.integers(1, 4))
         nu = int(rng.integers(0, 3))
         ep = bool(rng.random() < 0.7)
-        chain, d = sg.gen_chain(rng, ns, nu, max_len, max_depth, allow)
+        from . import direct as _direct
+        if cid < len(_direct.CHAIN_POOL) and set(sg.kinds_of(('pipe', _direct.CHAIN_POOL[cid]))) <= set(allow) | {'split', 'pipe'}:
+            chain = _direct.CHAIN_POOL[cid]; ns, nu = 2, 1
+            d = (ns, nu)
+            for sp in chain:
+                d = sg.dims_out(sp, *d)
+            need = None
+        else:
+            chain, d = sg.gen_chain(rng, ns, nu, max_len, max_depth, allow)
         if not chain:
             continue
         top = ('pipe', chain)
